@@ -14,6 +14,7 @@ import (
 	"math/rand"
 	"os"
 	"path/filepath"
+	"reflect"
 	"sort"
 	"strings"
 	"testing"
@@ -27,6 +28,8 @@ import (
 	authcodec "github.com/cosmos/cosmos-sdk/x/auth/codec"
 	slashingtypes "github.com/cosmos/cosmos-sdk/x/slashing/types"
 	stakingtypes "github.com/cosmos/cosmos-sdk/x/staking/types"
+	"github.com/ethereum/go-ethereum/accounts/abi"
+	"github.com/ethereum/go-ethereum/common"
 	"github.com/onsi/ginkgo/v2"
 	chainparams "github.com/palomachain/paloma/v2/app/params"
 	"github.com/palomachain/paloma/v2/tests/integration/helper"
@@ -790,6 +793,66 @@ type sentMsg struct {
 	ID     uint64
 	Addrs  []int64
 	Powers []uint64
+	Kind   string // "update": UpdateValset message; "deploy": the valset in the constructor input of a compass deployment
+}
+
+// the compass ABI of the tree under test (x/evm/keeper/testdata/sample-abi.json), for deployments
+var (
+	compassABIJSON string
+	compassABI     abi.ABI
+	compassOK      bool
+)
+
+func init() {
+	repo := os.Getenv("VERIF_REPO")
+	if repo == "" {
+		repo = "/repo"
+	}
+	b, err := os.ReadFile(filepath.Join(repo, "x/evm/keeper/testdata/sample-abi.json"))
+	if err != nil {
+		return
+	}
+	parsed, err := abi.JSON(strings.NewReader(string(b)))
+	if err != nil {
+		return
+	}
+	compassABIJSON, compassABI, compassOK = string(b), parsed, true
+}
+
+// decodeDeployValset reads the valset out of an UploadSmartContract's constructor input
+// (bytes32 compass id, uint256, uint256, (address[] validators, uint256[] powers, uint256 valset_id), address)
+func decodeDeployValset(input []byte) (id uint64, addrs []string, powers []uint64, ok bool) {
+	if !compassOK {
+		return
+	}
+	vals, err := compassABI.Constructor.Inputs.Unpack(input)
+	if err != nil || len(vals) < 4 {
+		return
+	}
+	v := reflect.ValueOf(vals[3])
+	if v.Kind() != reflect.Struct {
+		return
+	}
+	fv, fp, fi := v.FieldByName("Validators"), v.FieldByName("Powers"), v.FieldByName("ValsetId")
+	if !fv.IsValid() || !fp.IsValid() || !fi.IsValid() {
+		return
+	}
+	as, ok1 := fv.Interface().([]common.Address)
+	ps, ok2 := fp.Interface().([]*big.Int)
+	vid, ok3 := fi.Interface().(*big.Int)
+	if !ok1 || !ok2 || !ok3 {
+		return
+	}
+	for _, a := range as {
+		addrs = append(addrs, a.Hex())
+	}
+	for _, p := range ps {
+		if !p.IsUint64() {
+			return 0, nil, nil, false
+		}
+		powers = append(powers, p.Uint64())
+	}
+	return vid.Uint64(), addrs, powers, true
 }
 
 // newly appeared UpdateValset messages in the turnstone queues of all supported chains
@@ -822,11 +885,23 @@ func (e *env) newSent(a *addrReg) []sentMsg {
 			if !ok {
 				continue
 			}
+			if up := em.GetUploadSmartContract(); up != nil {
+				id, addrs, powers, ok := decodeDeployValset(up.GetConstructorInput())
+				if !ok {
+					continue
+				}
+				s := sentMsg{Chain: c, ID: id, Powers: powers, Kind: "deploy"}
+				for _, x := range addrs {
+					s.Addrs = append(s.Addrs, a.id(x))
+				}
+				out = append(out, s)
+				continue
+			}
 			uv := em.GetUpdateValset()
 			if uv == nil || uv.Valset == nil {
 				continue
 			}
-			s := sentMsg{Chain: c, ID: uv.Valset.ValsetID, Powers: uv.Valset.Powers}
+			s := sentMsg{Chain: c, ID: uv.Valset.ValsetID, Powers: uv.Valset.Powers, Kind: "update"}
 			for _, x := range uv.Valset.Validators {
 				s.Addrs = append(s.Addrs, a.id(x))
 			}
@@ -919,11 +994,11 @@ func (e *env) observe(run *emit.Run, a *addrReg, hist *[]string, sent []sentMsg)
 			sum.Add(sum, new(big.Int).SetUint64(p))
 		}
 		if sum.Cmp(threshold) < 0 {
-			run.Violate("C10:sent-without-quorum", fmt.Sprintf("valset %d sent to %q with powers summing to %s < %s", m.ID, m.Chain, sum, threshold), replay())
+			run.Violate("C10:sent-without-quorum", fmt.Sprintf("valset %d sent (%s) to %q with powers summing to %s < %s", m.ID, m.Kind, m.Chain, sum, threshold), replay())
 		}
 		if sum.Cmp(threshold) == 0 && !gapSentReported {
 			gapSentReported = true
-			run.Violate("C10:quorum-floor-gap", fmt.Sprintf("valset %d really enqueued for %q with powers %v summing to exactly %s = thresholdForConsensus: 3*sum = 2^33-2 < 2*2^32", m.ID, m.Chain, m.Powers, sum), replay())
+			run.Violate("C10:quorum-floor-gap", fmt.Sprintf("valset %d really enqueued (%s) for %q with powers %v summing to exactly %s = thresholdForConsensus: 3*sum = 2^33-2 < 2*2^32", m.ID, m.Kind, m.Chain, m.Powers, sum), replay())
 		}
 		if sum.Cmp(two32) > 0 {
 			run.Violate("C10:power-sum-above-2p32", fmt.Sprintf("valset %d sent to %q with powers summing to %s > 2^32", m.ID, m.Chain, sum), replay())
@@ -957,7 +1032,7 @@ func (e *env) observe(run *emit.Run, a *addrReg, hist *[]string, sent []sentMsg)
 				run.Violate("C10:power-not-floor", fmt.Sprintf("sent valset %d: share %s of %s has power %d, floor is %s", m.ID, sh, total, m.Powers[k], want), replay())
 			}
 		}
-		run.Count("sent", fmt.Sprintf("entries=%d", len(m.Addrs)))
+		run.Count("sent", fmt.Sprintf("%s entries=%d", m.Kind, len(m.Addrs)))
 	}
 	return fmt.Sprintf("{| C10.o_current := %s; C10.o_store := %s; C10.o_sent := %s |}", emit.ZU(curID), emit.List(store), coqSent(e.tb, sent))
 }
@@ -1073,6 +1148,32 @@ func (h *hist) activateChain(name string) {
 	e.scID++
 	_ = e.in.EvmKeeper.ActivateChainReferenceID(e.ctx, name, &evmtypes.SmartContract{Id: e.scID}, fmt.Sprintf("0xc0%02d", e.scID), []byte(fmt.Sprintf("uid-%d", e.scID)))
 	h.log = append(h.log, fmt.Sprintf("activate %q", name))
+	h.recordChains()
+}
+
+// feeMgr sets the chain's fee manager address (a compass deployment needs one); no valset state changes
+func (h *hist) feeMgr(name string) {
+	_ = h.e.in.EvmKeeper.SetFeeManagerAddress(h.e.ctx, name, "0x00000000000000000000000000000000000000fe")
+	h.log = append(h.log, fmt.Sprintf("fee-manager %q", name))
+	h.recordChains()
+}
+
+// compass saves a compass contract and makes it the latest one: the keeper tries to deploy it to every
+// chain without a deployment (the valset goes into the constructor input, behind the quorum guard)
+func (h *hist) compass() {
+	if !compassOK {
+		return
+	}
+	e := h.e
+	func() {
+		defer func() { _ = recover() }()
+		sc, err := e.in.EvmKeeper.SaveNewSmartContract(e.ctx, compassABIJSON, []byte{0x60, 0x80, 0x60, 0x40})
+		if err == nil {
+			_ = e.in.EvmKeeper.SetAsCompassContract(e.ctx, sc)
+		}
+	}()
+	h.log = append(h.log, "new compass contract")
+	h.run.Count("op", "compass")
 	h.recordChains()
 }
 
@@ -1297,6 +1398,28 @@ func jitGateHistory(t *testing.T, run *emit.Run, a *addrReg, next *int64) {
 	h.finish(true)
 }
 
+// deployGateHistory: the valset inside a compass deployment.  chain-0 is added but not active, so all
+// three equal validators are members although only v0 has an account there: the deployment must be
+// refused (one third of the power).  After v1 registered an account the two of three reach exactly
+// thresholdForConsensus and the deployment message is enqueued (the quorum-floor-gap once more, on
+// the deployment path: three equal validators, one without an account on the chain).
+func deployGateHistory(t *testing.T, run *emit.Run, a *addrReg, next *int64) {
+	n0 := chainName(0)
+	h := newHist(t, run, a, next, []string{n0})
+	h.e.nvals = 3
+	h.addChain(n0)
+	h.feeMgr(n0)
+	h.stakingSet(equalStake(3, 3_000_000))
+	h.register(0, []rinfo{h.acct("evm", n0)})
+	h.build()   // snapshot 1: v0, v1, v2 (no active chain)
+	h.compass() // valset for chain-0: v0 alone: nothing may be deployed
+	refused := h.sentN
+	h.register(1, []rinfo{h.acct("evm", n0)})
+	h.build() // snapshot 2; the deployment is retried: powers [1431655765 1431655765]
+	run.Count("directed", fmt.Sprintf("deploy-gate sent-below-quorum=%d sent-after=%d", refused, h.sentN-refused))
+	h.finish(true)
+}
+
 // worthyBoundaryHistory walks isNewSnapshotWorthy's branches on the real keeper: the 1 % float test
 // one raw decimal unit below and exactly at the boundary, a flipped ranking, traits added /
 // permuted / replaced, a re-spelt chain type, accounts added and re-ordered.  Whether each build is
@@ -1475,10 +1598,14 @@ func doHistory(t *testing.T, run *emit.Run, a *addrReg, r *rand.Rand, next *int6
 		}
 		h.stakingSet(map[int]stakeSpec{v.Val: {Status: stakingtypes.Bonded, Jailed: v.Jailed, Tokens: nt}})
 	}
+	deploys := r.Intn(3) == 0 // this history has a compass contract to deploy
 	chainOp := func(c int, kind int) {
 		switch {
 		case !e.chains[names[c]]:
 			h.addChain(names[c])
+			if deploys && r.Intn(4) != 0 {
+				h.feeMgr(names[c])
+			}
 		case kind == 0:
 			h.activateChain(names[c])
 		default:
@@ -1546,6 +1673,9 @@ func doHistory(t *testing.T, run *emit.Run, a *addrReg, r *rand.Rand, next *int6
 	missingOp()
 	h.build()
 	for k := 0; k < nops; k++ {
+		if deploys && k == nops/3 {
+			h.compass()
+		}
 		switch x := r.Intn(25); {
 		case x >= 23:
 			nudgeOp()
@@ -1635,6 +1765,7 @@ func TestCorr(t *testing.T) {
 	nearMissHistory(t, run, a, &next)
 	worthyBoundaryHistory(t, run, a, &next)
 	jitGateHistory(t, run, a, &next)
+	deployGateHistory(t, run, a, &next)
 	nHist := run.N / 5
 	nTr := run.N - nHist
 	for i := 0; i < nTr; i++ {
